@@ -358,6 +358,45 @@ func init() {
 			},
 		}
 	})
+	// a tight window refilled after the damage was dealt with: what the first
+	// adoption abandoned (and left in store) must not count at the second
+	register("damagefill", func() *Scenario {
+		cfg := baseConfig()
+		cfg.AtLeastOnceMax, cfg.ExactlyOnceMax = 3, 3
+		rd := ActorSpec{Name: "reader", Reader: &ReaderSpec{Backoff: true}}
+		var w0 *World
+		return &Scenario{
+			Config:    cfg,
+			AdoptProp: "C16",
+			Init:      func(w *World) { w0 = w },
+			// never connected: three transfers of each level accepted and stored
+			Actors: []ActorSpec{{Name: "A", Ops: []Op{
+				{Kind: "pub1", Topic: "f/1", Msg: []byte("F1-fill")}, {Kind: "pub1", Topic: "f/2", Msg: []byte("F2-fill")}, {Kind: "pub1", Topic: "f/3", Msg: []byte("F3-fill")},
+				{Kind: "pub2", Topic: "g/1", Msg: []byte("G1-fill")}, {Kind: "pub2", Topic: "g/2", Msg: []byte("G2-fill")}, {Kind: "pub2", Topic: "g/3", Msg: []byte("G3-fill")},
+			}}},
+			Gens: [][]ActorSpec{
+				// the second life refills both windows (as far as the damage made room); nothing is acknowledged
+				{rd, {Name: "A", Ops: []Op{
+					{Kind: "pub1", Topic: "f/4", Msg: []byte("F4-fill")}, {Kind: "pub1", Topic: "f/5", Msg: []byte("F5-fill")},
+					{Kind: "pub2", Topic: "g/4", Msg: []byte("G4-fill")}, {Kind: "pub2", Topic: "g/5", Msg: []byte("G5-fill")},
+				}}},
+				{rd, {Name: "A", Ops: []Op{{Kind: "pub1", Topic: "f/6", Msg: []byte("F6-fill")}}}},
+			},
+			Mute: func(p *Packet) bool { return w0 != nil && w0.gen == 1 && p.Type == tPUBLISH },
+			Faults: Faults{Crash: true, Damage: 1, DamageOnce: true, Allow: func(w *World, k string) bool {
+				return k != "crash" || w.gen > 0 || len(w.records()) >= 7
+			}},
+			Horizon: 900,
+			Final: func(w *World) {
+				w.monitorWire()
+				if w.gen == 1 {
+					return // nothing completes while the second life's publishes are withheld
+				}
+				w.monitorDamage()
+				w.monitorDamageLater()
+			},
+		}
+	})
 	// the FileSystem store under the scheduler: a stop can fall between any two
 	// primitives of a Save or Delete, leaving spool files behind
 	register("damagefs", func() *Scenario {
